@@ -1,6 +1,8 @@
 import VerifModel.Base.Proto
 import VerifModel.Model.DetMetrics
 import VerifModel.Spec.Det
+import VerifModel.Model.DetSingle
+import VerifModel.Driver.Cont
 /- Driver ops for the deterministic metrics (C05). -/
 namespace VerifModel.Driver.Det
 open VerifModel Proto
@@ -60,6 +62,20 @@ def handle (args : List String) : Option String :=
       let (os, fs) := (← ratsOf? (← parseVec? os), ← ratsOf? (← parseVec? fs))
       if os.isEmpty || os.length != fs.length then some "nan"
       else some (showOpt (specEval floatTr name aggf os fs))
+  | ["single", name, agg, ax, iv, obs, fcst] => do
+      let aggf ← aggByName floatTr agg
+      let I ← Driver.Cont.parseInterval? iv
+      let a ← (match ax with | "obs" => some CondAxis.obs | "fcst" => some CondAxis.fcst | "no" => some CondAxis.none | _ => none)
+      let (obs, fcst) := (← parseVec? obs, ← parseVec? fcst)
+      if name == "obs" || name == "fcst" then
+        some (match fromFieldSingle aggf (agg == "min" || agg == "max") (name == "obs") a I obs fcst with
+              | none => "EMPTY"
+              | some v => toString v)
+      else if name == "within" then some (toString (withinSingle I obs fcst))
+      else if name == "corr" then some (toString (obsFcstSingle (corr floatTr) a I obs fcst))
+      else match Gen.Det.eval floatTr name aggf [] [] with
+        | none => some "ERR"
+        | some _ => some (toString (obsFcstSingle (fun o g => (Gen.Det.eval floatTr name aggf o g).getD .nan) a I obs fcst))
   | ["detperfect", name] => some (showOpt (Gen.Det.perfect name))
   | ["detorient", name] => some (showOpt (Gen.Det.orientation name))
   | ["detnames"] => some (",".intercalate Gen.Det.names)
